@@ -1,6 +1,869 @@
-//! C05 (stub)
+//! C05 — shifts and bit queries agree with the binary expansion for every shift amount.
+//!
+//! Oracle: `x << s` / `x >> s` / bit arithmetic on BigUint (BigInt + floor division for the arithmetic
+//! right shift), truncated to the width. Overflow is reported exactly when `s >= BITS` (for the
+//! double-width `(lo, hi)` forms: `s >= 2*BITS`); the wrapping forms then return zero (Int right
+//! shifts: the sign fill), the panicking forms (`shl`, `shr`, operators) panic as documented.
+//! Every case runs **all** shift amounts `0..=2*BITS+1` (+ large ones up to `u32::MAX`) over a few
+//! values; the bit-test / bit-set cases run every index `0..=BITS+1`.
+//!
+//! Note on `Limb`: its `WrappingShl`/`WrappingShr` are the `num_traits` traits implemented through
+//! `u64::wrapping_shl`, documented as "mask the shift amount"; that documented behaviour is the
+//! oracle there (the Uint/Int/BoxedUint wrapping forms return zero as the property says).
+
 use super::prelude::*;
+use crypto_bigint::{BitOps, ShlVartime, ShrVartime, Wrapping, WrappingShl, WrappingShr};
+
+// ---------------------------------------------------------------- corpora
+
+/// All shift amounts `0..=2*bits+1` plus multiples of the width and huge values.
+fn shift_amounts(bits: u32) -> Vec<u32> {
+    let mut ks: Vec<u32> = (0..=2 * bits + 1).collect();
+    ks.extend([
+        3 * bits,
+        4 * bits,
+        4 * bits + 1,
+        1 << 16,
+        1 << 20,
+        (1 << 20) + 1,
+        i32::MAX as u32,
+        1 << 31,
+        (1 << 31) + 1,
+        (1 << 31) + bits,
+        u32::MAX - bits,
+        u32::MAX - 1,
+        u32::MAX,
+    ]);
+    ks
+}
+
+/// Limb boundaries used for runs of ones (all of them for narrow widths, a few for wide ones).
+fn boundaries(l: usize) -> Vec<usize> {
+    if l <= 6 { (1..l).collect() } else { vec![1, 2, l / 2, l - 1] }
+}
+
+/// Values for the "every shift amount" loops: 0, 1, MAX, top bit, alternating patterns, runs of ones
+/// ending / starting at limb boundaries, bits around limb boundaries, then `n` edge values and a
+/// few random ones.
+fn shift_values(c: &mut Ctx, l: usize, n_shifts: usize) -> Vec<BigUint> {
+    let bits = 64 * l as u32;
+    let max = mask(bits);
+    let mut v = vec![
+        BigUint::zero(),
+        BigUint::one(),
+        max.clone(),
+        pow2(bits - 1),
+        pow2(bits - 1) - 1u32,
+        &max / 3u32,         // 0101..
+        (&max / 3u32) << 1,  // 1010..
+        pow2(63),
+        pow2(63) | pow2(bits - 1) | BigUint::one(),
+    ];
+    for i in boundaries(l) {
+        let k = 64 * i as u32;
+        v.push(pow2(k) - 1u32); // ones below a limb boundary
+        v.push(&max ^ (pow2(k) - 1u32)); // ones above a limb boundary
+        v.push(pow2(k)); // single bit just above
+        v.push(pow2(k - 1) | pow2(k)); // pair straddling the boundary
+    }
+    let n = (c.cap / n_shifts).clamp(4, 32);
+    v.extend(c.edges(l, n));
+    for _ in 0..(c.iters / 200).clamp(2, 10) {
+        v.push(c.rnd(l));
+    }
+    v
+}
+
+/// Values for the bit queries: the unary corpus plus single bits at every position, runs of ones
+/// `2^k - 1` for every k, `MAX << k` for every k, runs ending at limb boundaries.
+fn bit_values(c: &mut Ctx, l: usize) -> Vec<BigUint> {
+    let bits = 64 * l as u32;
+    let max = mask(bits);
+    let mut v = c.inputs1(l);
+    for k in 0..bits {
+        v.push(pow2(k));
+        v.push(mask(k));
+        v.push((&max << k) & &max);
+        v.push(&max ^ pow2(k));
+    }
+    for i in 1..l {
+        for j in 0..i {
+            // a run of ones from limb j up to limb i
+            v.push(mask(64 * i as u32) ^ mask(64 * j as u32));
+        }
+    }
+    v
+}
+
+/// Value when the call is inside the documented domain, documented panic otherwise. Unwinding is
+/// slow, so outside the domain the call is only made when `$pan` says so (see [`panic_wanted`]).
+macro_rules! in_range_or_panic {
+    ($c:ident, $ok:expr, $pan:expr, $call:expr, $exp:expr; $($n:ident),*) => {
+        if $ok {
+            check!($c, $call, $exp; $($n),*);
+        } else if $pan {
+            must_panic!($c, $call; $($n),*);
+        }
+    };
+}
+
+/// The documented panics do not depend on the value: every out-of-range shift amount is tried on
+/// the first three values (0, 1, MAX), the boundary and huge amounts on every value.
+fn panic_wanted(value_index: usize, s: u32, bits: u32) -> bool {
+    value_index < 3 || s <= bits + 1 || s == 2 * bits || s > 2 * bits + 1
+}
+
+// ---------------------------------------------------------------- Uint shifts
+
+fn uint_shl<const L: usize>(c: &mut Ctx) {
+    let bits = 64 * L as u32;
+    let ks = shift_amounts(bits);
+    let m = mask(bits);
+    for (vi, x) in shift_values(c, L, ks.len()).into_iter().enumerate() {
+        let a = bu::<L>(&x);
+        for &s in &ks {
+            if c.done() {
+                return;
+            }
+            let ok = s < bits;
+            let pan = panic_wanted(vi, s, bits);
+            let e: Option<BigUint> = if ok { Some((&x << s as usize) & &m) } else { None };
+            let w = e.clone().unwrap_or_default();
+            let ou = |o: Option<Uint<L>>| o.map(|v| ub(&v));
+            check!(c, call(|| copt(a.overflowing_shl(s))).map(ou), e.clone(); x, s);
+            check!(c, call(|| copt(a.overflowing_shl_vartime(s))).map(ou), e.clone(); x, s);
+            check!(c, call(|| opt(ShlVartime::overflowing_shl_vartime(&a, s))).map(ou), e.clone(); x, s);
+            check!(c, call(|| a.wrapping_shl(s)).map(|v| ub(&v)), w.clone(); x, s);
+            check!(c, call(|| a.wrapping_shl_vartime(s)).map(|v| ub(&v)), w.clone(); x, s);
+            check!(c, call(|| WrappingShl::wrapping_shl(&a, s)).map(|v| ub(&v)), w.clone(); x, s);
+            check!(c, call(|| ShlVartime::wrapping_shl_vartime(&a, s)).map(|v| ub(&v)), w.clone(); x, s);
+            check!(c, call(|| Wrapping(a) << s).map(|v| ub(&v.0)), w.clone(); x, s);
+            check!(c, call(|| &Wrapping(a) << s).map(|v| ub(&v.0)), w.clone(); x, s);
+            // documented: panics if shift >= BITS
+            in_range_or_panic!(c, ok, pan, call(|| a.shl(s)).map(|v| ub(&v)), w.clone(); x, s);
+            in_range_or_panic!(c, ok, pan, call(|| a.shl_vartime(s)).map(|v| ub(&v)), w.clone(); x, s);
+            in_range_or_panic!(c, ok, pan, call(|| a << s).map(|v| ub(&v)), w.clone(); x, s);
+            in_range_or_panic!(c, ok, pan, call(|| &a << s).map(|v| ub(&v)), w.clone(); x, s);
+            in_range_or_panic!(c, ok, pan, call(|| { let mut t = a; t <<= s; t }).map(|v| ub(&v)), w.clone(); x, s);
+            let su = s as usize;
+            in_range_or_panic!(c, ok, pan, call(|| a << su).map(|v| ub(&v)), w.clone(); x, s);
+            in_range_or_panic!(c, ok, pan, call(|| &a << su).map(|v| ub(&v)), w.clone(); x, s);
+            in_range_or_panic!(c, ok, pan, call(|| { let mut t = a; t <<= su; t }).map(|v| ub(&v)), w.clone(); x, s);
+            if s <= i32::MAX as u32 {
+                let si = s as i32;
+                in_range_or_panic!(c, ok, pan, call(|| a << si).map(|v| ub(&v)), w.clone(); x, s);
+                in_range_or_panic!(c, ok, pan, call(|| &a << si).map(|v| ub(&v)), w.clone(); x, s);
+                in_range_or_panic!(c, ok, pan, call(|| { let mut t = a; t <<= si; t }).map(|v| ub(&v)), w.clone(); x, s);
+            }
+        }
+        // a usize shift that does not fit u32 (and would be 0 / small after truncation)
+        for big in [1usize << 32, (1usize << 32) + 1, usize::MAX] {
+            let s = big;
+            must_panic!(c, call(|| a << s).map(|v| ub(&v)); x, s);
+        }
+    }
+}
+
+fn uint_shr<const L: usize>(c: &mut Ctx) {
+    let bits = 64 * L as u32;
+    let ks = shift_amounts(bits);
+    for (vi, x) in shift_values(c, L, ks.len()).into_iter().enumerate() {
+        let a = bu::<L>(&x);
+        for &s in &ks {
+            if c.done() {
+                return;
+            }
+            let ok = s < bits;
+            let pan = panic_wanted(vi, s, bits);
+            let e: Option<BigUint> = if ok { Some(&x >> s as usize) } else { None };
+            let w = e.clone().unwrap_or_default();
+            let ou = |o: Option<Uint<L>>| o.map(|v| ub(&v));
+            check!(c, call(|| copt(a.overflowing_shr(s))).map(ou), e.clone(); x, s);
+            check!(c, call(|| copt(a.overflowing_shr_vartime(s))).map(ou), e.clone(); x, s);
+            check!(c, call(|| opt(ShrVartime::overflowing_shr_vartime(&a, s))).map(ou), e.clone(); x, s);
+            check!(c, call(|| a.wrapping_shr(s)).map(|v| ub(&v)), w.clone(); x, s);
+            check!(c, call(|| a.wrapping_shr_vartime(s)).map(|v| ub(&v)), w.clone(); x, s);
+            check!(c, call(|| WrappingShr::wrapping_shr(&a, s)).map(|v| ub(&v)), w.clone(); x, s);
+            check!(c, call(|| ShrVartime::wrapping_shr_vartime(&a, s)).map(|v| ub(&v)), w.clone(); x, s);
+            check!(c, call(|| Wrapping(a) >> s).map(|v| ub(&v.0)), w.clone(); x, s);
+            check!(c, call(|| &Wrapping(a) >> s).map(|v| ub(&v.0)), w.clone(); x, s);
+            // documented: panics if shift >= BITS
+            in_range_or_panic!(c, ok, pan, call(|| a.shr(s)).map(|v| ub(&v)), w.clone(); x, s);
+            in_range_or_panic!(c, ok, pan, call(|| a.shr_vartime(s)).map(|v| ub(&v)), w.clone(); x, s);
+            in_range_or_panic!(c, ok, pan, call(|| a >> s).map(|v| ub(&v)), w.clone(); x, s);
+            in_range_or_panic!(c, ok, pan, call(|| &a >> s).map(|v| ub(&v)), w.clone(); x, s);
+            in_range_or_panic!(c, ok, pan, call(|| { let mut t = a; t >>= s; t }).map(|v| ub(&v)), w.clone(); x, s);
+            let su = s as usize;
+            in_range_or_panic!(c, ok, pan, call(|| a >> su).map(|v| ub(&v)), w.clone(); x, s);
+            in_range_or_panic!(c, ok, pan, call(|| &a >> su).map(|v| ub(&v)), w.clone(); x, s);
+            in_range_or_panic!(c, ok, pan, call(|| { let mut t = a; t >>= su; t }).map(|v| ub(&v)), w.clone(); x, s);
+            if s <= i32::MAX as u32 {
+                let si = s as i32;
+                in_range_or_panic!(c, ok, pan, call(|| a >> si).map(|v| ub(&v)), w.clone(); x, s);
+                in_range_or_panic!(c, ok, pan, call(|| &a >> si).map(|v| ub(&v)), w.clone(); x, s);
+                in_range_or_panic!(c, ok, pan, call(|| { let mut t = a; t >>= si; t }).map(|v| ub(&v)), w.clone(); x, s);
+            }
+        }
+        for big in [1usize << 32, (1usize << 32) + 1, usize::MAX] {
+            let s = big;
+            must_panic!(c, call(|| a >> s).map(|v| ub(&v)); x, s);
+        }
+    }
+}
+
+/// Double-width shifts on `(lo, hi)`: the value is `lo + hi * 2^BITS`, the width `2*BITS`.
+fn uint_wide<const L: usize>(c: &mut Ctx) {
+    let bits = 64 * L as u32;
+    let ks = shift_amounts(bits);
+    let (m, m2) = (mask(bits), mask(2 * bits));
+    let vals = shift_values(c, L, 2 * ks.len());
+    let mut pairs: Vec<(BigUint, BigUint)> = vec![
+        (m.clone(), BigUint::zero()),
+        (BigUint::zero(), m.clone()),
+        (m.clone(), m.clone()),
+        (BigUint::one(), BigUint::zero()),
+        (BigUint::zero(), BigUint::one()),
+        (BigUint::zero(), pow2(bits - 1)),
+        (pow2(bits - 1), BigUint::zero()),
+        (BigUint::one(), BigUint::one()),
+        (BigUint::zero(), BigUint::zero()),
+    ];
+    for i in 0..vals.len() {
+        pairs.push((vals[i].clone(), vals[(7 * i + 3) % vals.len()].clone()));
+    }
+    for (lo, hi) in pairs {
+        let n = &lo | (&hi << bits as usize);
+        let (a, b) = (bu::<L>(&lo), bu::<L>(&hi));
+        for &s in &ks {
+            if c.done() {
+                return;
+            }
+            let ok = s < 2 * bits;
+            let split = |v: BigUint| (&v & &m, &v >> bits as usize);
+            let el = if ok { Some(split((&n << s as usize) & &m2)) } else { None };
+            let er = if ok { Some(split(&n >> s as usize)) } else { None };
+            let ou = |o: Option<(Uint<L>, Uint<L>)>| o.map(|(p, q)| (ub(&p), ub(&q)));
+            check!(c, call(|| copt(Uint::<L>::overflowing_shl_vartime_wide((a, b), s))).map(ou), el; lo, hi, s);
+            check!(c, call(|| copt(Uint::<L>::overflowing_shr_vartime_wide((a, b), s))).map(ou), er; lo, hi, s);
+        }
+    }
+}
+
+// ---------------------------------------------------------------- Int shifts
+
+fn int_values(c: &mut Ctx, l: usize, n_shifts: usize) -> Vec<BigInt> {
+    let bits = 64 * l as u32;
+    let mut v: Vec<BigInt> = shift_values(c, l, n_shifts).iter().map(|x| wrap_signed(&BigInt::from(x.clone()), bits)).collect();
+    v.extend([smin(bits), smax(bits), BigInt::from(-1), BigInt::from(-2), smin(bits) + 1, smin(bits - 1), smax(bits - 1) + 1]);
+    v
+}
+
+fn int_shl<const L: usize>(c: &mut Ctx) {
+    let bits = 64 * L as u32;
+    let ks = shift_amounts(bits);
+    for (vi, x) in int_values(c, L, ks.len()).into_iter().enumerate() {
+        let a = bi::<L>(&x);
+        for &s in &ks {
+            if c.done() {
+                return;
+            }
+            let ok = s < bits;
+            let pan = panic_wanted(vi, s, bits);
+            let e: Option<BigInt> = if ok { Some(wrap_signed(&(&x << s as usize), bits)) } else { None };
+            let w = e.clone().unwrap_or_default();
+            let oi = |o: Option<Int<L>>| o.map(|v| ib(&v));
+            check!(c, call(|| copt(a.overflowing_shl(s))).map(oi), e.clone(); x, s);
+            check!(c, call(|| copt(a.overflowing_shl_vartime(s))).map(oi), e.clone(); x, s);
+            check!(c, call(|| opt(ShlVartime::overflowing_shl_vartime(&a, s))).map(oi), e.clone(); x, s);
+            check!(c, call(|| a.wrapping_shl(s)).map(|v| ib(&v)), w.clone(); x, s);
+            check!(c, call(|| a.wrapping_shl_vartime(s)).map(|v| ib(&v)), w.clone(); x, s);
+            check!(c, call(|| WrappingShl::wrapping_shl(&a, s)).map(|v| ib(&v)), w.clone(); x, s);
+            check!(c, call(|| ShlVartime::wrapping_shl_vartime(&a, s)).map(|v| ib(&v)), w.clone(); x, s);
+            in_range_or_panic!(c, ok, pan, call(|| a.shl(s)).map(|v| ib(&v)), w.clone(); x, s);
+            in_range_or_panic!(c, ok, pan, call(|| a.shl_vartime(s)).map(|v| ib(&v)), w.clone(); x, s);
+            in_range_or_panic!(c, ok, pan, call(|| a << s).map(|v| ib(&v)), w.clone(); x, s);
+            in_range_or_panic!(c, ok, pan, call(|| &a << s).map(|v| ib(&v)), w.clone(); x, s);
+            in_range_or_panic!(c, ok, pan, call(|| { let mut t = a; t <<= s; t }).map(|v| ib(&v)), w.clone(); x, s);
+            let su = s as usize;
+            in_range_or_panic!(c, ok, pan, call(|| a << su).map(|v| ib(&v)), w.clone(); x, s);
+            in_range_or_panic!(c, ok, pan, call(|| { let mut t = a; t <<= su; t }).map(|v| ib(&v)), w.clone(); x, s);
+            if s <= i32::MAX as u32 {
+                let si = s as i32;
+                in_range_or_panic!(c, ok, pan, call(|| a << si).map(|v| ib(&v)), w.clone(); x, s);
+                in_range_or_panic!(c, ok, pan, call(|| { let mut t = a; t <<= si; t }).map(|v| ib(&v)), w.clone(); x, s);
+            }
+        }
+    }
+}
+
+/// Arithmetic right shift: floor(x / 2^s); sign fill (0 / -1) from the wrapping forms when s >= BITS.
+fn int_shr<const L: usize>(c: &mut Ctx) {
+    let bits = 64 * L as u32;
+    let ks = shift_amounts(bits);
+    for (vi, x) in int_values(c, L, ks.len()).into_iter().enumerate() {
+        let a = bi::<L>(&x);
+        let fill = if x.sign() == num_bigint::Sign::Minus { BigInt::from(-1) } else { BigInt::zero() };
+        for &s in &ks {
+            if c.done() {
+                return;
+            }
+            let ok = s < bits;
+            let pan = panic_wanted(vi, s, bits);
+            let e: Option<BigInt> = if ok { Some(div_floor(&x, &BigInt::from(pow2(s))).0) } else { None };
+            let w = e.clone().unwrap_or_else(|| fill.clone());
+            let oi = |o: Option<Int<L>>| o.map(|v| ib(&v));
+            check!(c, call(|| copt(a.overflowing_shr(s))).map(oi), e.clone(); x, s);
+            check!(c, call(|| copt(a.overflowing_shr_vartime(s))).map(oi), e.clone(); x, s);
+            check!(c, call(|| opt(ShrVartime::overflowing_shr_vartime(&a, s))).map(oi), e.clone(); x, s);
+            check!(c, call(|| a.wrapping_shr(s)).map(|v| ib(&v)), w.clone(); x, s);
+            check!(c, call(|| a.wrapping_shr_vartime(s)).map(|v| ib(&v)), w.clone(); x, s);
+            check!(c, call(|| WrappingShr::wrapping_shr(&a, s)).map(|v| ib(&v)), w.clone(); x, s);
+            check!(c, call(|| ShrVartime::wrapping_shr_vartime(&a, s)).map(|v| ib(&v)), w.clone(); x, s);
+            in_range_or_panic!(c, ok, pan, call(|| a.shr(s)).map(|v| ib(&v)), w.clone(); x, s);
+            in_range_or_panic!(c, ok, pan, call(|| a.shr_vartime(s)).map(|v| ib(&v)), w.clone(); x, s);
+            in_range_or_panic!(c, ok, pan, call(|| a >> s).map(|v| ib(&v)), w.clone(); x, s);
+            in_range_or_panic!(c, ok, pan, call(|| &a >> s).map(|v| ib(&v)), w.clone(); x, s);
+            in_range_or_panic!(c, ok, pan, call(|| { let mut t = a; t >>= s; t }).map(|v| ib(&v)), w.clone(); x, s);
+            let su = s as usize;
+            in_range_or_panic!(c, ok, pan, call(|| a >> su).map(|v| ib(&v)), w.clone(); x, s);
+            in_range_or_panic!(c, ok, pan, call(|| { let mut t = a; t >>= su; t }).map(|v| ib(&v)), w.clone(); x, s);
+            if s <= i32::MAX as u32 {
+                let si = s as i32;
+                in_range_or_panic!(c, ok, pan, call(|| a >> si).map(|v| ib(&v)), w.clone(); x, s);
+                in_range_or_panic!(c, ok, pan, call(|| { let mut t = a; t >>= si; t }).map(|v| ib(&v)), w.clone(); x, s);
+            }
+        }
+    }
+}
+
+// ---------------------------------------------------------------- BoxedUint shifts
+
+/// value and precision of a boxed result
+fn xs(v: &BoxedUint) -> (BigUint, usize) {
+    (xb(v), v.nlimbs())
+}
+
+fn boxed_shl(c: &mut Ctx) {
+    for nl in [1usize, 2, 3, 4, 5] {
+        let bits = 64 * nl as u32;
+        let ks = shift_amounts(bits);
+        let m = mask(bits);
+        for (vi, x) in c.scaled(5, |c| shift_values(c, nl, ks.len())).into_iter().enumerate() {
+            let a = bx(&x, nl);
+            for &s in &ks {
+                if c.done() {
+                    return;
+                }
+                let ok = s < bits;
+            let pan = panic_wanted(vi, s, bits);
+                let w = if ok { (&x << s as usize) & &m } else { BigUint::zero() };
+                let e = if ok { Some((w.clone(), nl)) } else { None };
+                // (zero, true) when shift >= bits_precision, (result, false) otherwise
+                check!(c, call(|| a.overflowing_shl(s)).map(|(v, o)| (xb(&v), v.nlimbs(), cb(o))), (w.clone(), nl, !ok); x, nl, s);
+                check!(c, call(|| { let mut t = a.clone(); let o = t.overflowing_shl_assign(s); (xb(&t), t.nlimbs(), cb(o)) }), (w.clone(), nl, !ok); x, nl, s);
+                check!(c, call(|| a.shl_vartime(s)).map(|o| o.map(|v| xs(&v))), e.clone(); x, nl, s);
+                check!(c, call(|| opt(ShlVartime::overflowing_shl_vartime(&a, s))).map(|o| o.map(|v| xs(&v))), e.clone(); x, nl, s);
+                check!(c, call(|| a.wrapping_shl(s)).map(|v| xs(&v)), (w.clone(), nl); x, nl, s);
+                check!(c, call(|| a.wrapping_shl_vartime(s)).map(|v| xs(&v)), (w.clone(), nl); x, nl, s);
+                check!(c, call(|| WrappingShl::wrapping_shl(&a, s)).map(|v| xs(&v)), (w.clone(), nl); x, nl, s);
+                check!(c, call(|| ShlVartime::wrapping_shl_vartime(&a, s)).map(|v| xs(&v)), (w.clone(), nl); x, nl, s);
+                check!(c, call(|| Wrapping(a.clone()) << s).map(|v| xs(&v.0)), (w.clone(), nl); x, nl, s);
+                // documented: panics if shift >= the precision
+                in_range_or_panic!(c, ok, pan, call(|| a.shl(s)).map(|v| xs(&v)), (w.clone(), nl); x, nl, s);
+                in_range_or_panic!(c, ok, pan, call(|| { let mut t = a.clone(); BoxedUint::shl_assign(&mut t, s); t }).map(|v| xs(&v)), (w.clone(), nl); x, nl, s);
+                in_range_or_panic!(c, ok, pan, call(|| &a << s).map(|v| xs(&v)), (w.clone(), nl); x, nl, s);
+                in_range_or_panic!(c, ok, pan, call(|| a.clone() << s).map(|v| xs(&v)), (w.clone(), nl); x, nl, s);
+                in_range_or_panic!(c, ok, pan, call(|| { let mut t = a.clone(); t <<= s; t }).map(|v| xs(&v)), (w.clone(), nl); x, nl, s);
+                let su = s as usize;
+                in_range_or_panic!(c, ok, pan, call(|| &a << su).map(|v| xs(&v)), (w.clone(), nl); x, nl, s);
+                in_range_or_panic!(c, ok, pan, call(|| { let mut t = a.clone(); t <<= su; t }).map(|v| xs(&v)), (w.clone(), nl); x, nl, s);
+                if s <= i32::MAX as u32 {
+                    let si = s as i32;
+                    in_range_or_panic!(c, ok, pan, call(|| &a << si).map(|v| xs(&v)), (w.clone(), nl); x, nl, s);
+                    in_range_or_panic!(c, ok, pan, call(|| { let mut t = a.clone(); t <<= si; t }).map(|v| xs(&v)), (w.clone(), nl); x, nl, s);
+                }
+            }
+        }
+    }
+}
+
+fn boxed_shr(c: &mut Ctx) {
+    for nl in [1usize, 2, 3, 4, 5] {
+        let bits = 64 * nl as u32;
+        let ks = shift_amounts(bits);
+        for (vi, x) in c.scaled(5, |c| shift_values(c, nl, ks.len())).into_iter().enumerate() {
+            let a = bx(&x, nl);
+            for &s in &ks {
+                if c.done() {
+                    return;
+                }
+                let ok = s < bits;
+            let pan = panic_wanted(vi, s, bits);
+                let w = if ok { &x >> s as usize } else { BigUint::zero() };
+                let e = if ok { Some((w.clone(), nl)) } else { None };
+                check!(c, call(|| a.overflowing_shr(s)).map(|(v, o)| (xb(&v), v.nlimbs(), cb(o))), (w.clone(), nl, !ok); x, nl, s);
+                check!(c, call(|| { let mut t = a.clone(); let o = t.overflowing_shr_assign(s); (xb(&t), t.nlimbs(), cb(o)) }), (w.clone(), nl, !ok); x, nl, s);
+                check!(c, call(|| a.shr_vartime(s)).map(|o| o.map(|v| xs(&v))), e.clone(); x, nl, s);
+                check!(c, call(|| opt(ShrVartime::overflowing_shr_vartime(&a, s))).map(|o| o.map(|v| xs(&v))), e.clone(); x, nl, s);
+                check!(c, call(|| a.wrapping_shr(s)).map(|v| xs(&v)), (w.clone(), nl); x, nl, s);
+                check!(c, call(|| a.wrapping_shr_vartime(s)).map(|v| xs(&v)), (w.clone(), nl); x, nl, s);
+                check!(c, call(|| WrappingShr::wrapping_shr(&a, s)).map(|v| xs(&v)), (w.clone(), nl); x, nl, s);
+                check!(c, call(|| ShrVartime::wrapping_shr_vartime(&a, s)).map(|v| xs(&v)), (w.clone(), nl); x, nl, s);
+                check!(c, call(|| Wrapping(a.clone()) >> s).map(|v| xs(&v.0)), (w.clone(), nl); x, nl, s);
+                in_range_or_panic!(c, ok, pan, call(|| a.shr(s)).map(|v| xs(&v)), (w.clone(), nl); x, nl, s);
+                in_range_or_panic!(c, ok, pan, call(|| { let mut t = a.clone(); BoxedUint::shr_assign(&mut t, s); t }).map(|v| xs(&v)), (w.clone(), nl); x, nl, s);
+                in_range_or_panic!(c, ok, pan, call(|| &a >> s).map(|v| xs(&v)), (w.clone(), nl); x, nl, s);
+                in_range_or_panic!(c, ok, pan, call(|| a.clone() >> s).map(|v| xs(&v)), (w.clone(), nl); x, nl, s);
+                in_range_or_panic!(c, ok, pan, call(|| { let mut t = a.clone(); t >>= s; t }).map(|v| xs(&v)), (w.clone(), nl); x, nl, s);
+                let su = s as usize;
+                in_range_or_panic!(c, ok, pan, call(|| &a >> su).map(|v| xs(&v)), (w.clone(), nl); x, nl, s);
+                in_range_or_panic!(c, ok, pan, call(|| { let mut t = a.clone(); t >>= su; t }).map(|v| xs(&v)), (w.clone(), nl); x, nl, s);
+                if s <= i32::MAX as u32 {
+                    let si = s as i32;
+                    in_range_or_panic!(c, ok, pan, call(|| &a >> si).map(|v| xs(&v)), (w.clone(), nl); x, nl, s);
+                    in_range_or_panic!(c, ok, pan, call(|| { let mut t = a.clone(); t >>= si; t }).map(|v| xs(&v)), (w.clone(), nl); x, nl, s);
+                }
+            }
+        }
+    }
+}
+
+// ---------------------------------------------------------------- Limb shifts
+
+fn limb_shifts(c: &mut Ctx) {
+    let ks = shift_amounts(64);
+    let m = mask(64);
+    let mut vals = c.edges(1, 10);
+    vals.extend((0..64).step_by(7).map(pow2));
+    for _ in 0..(c.iters / 100).clamp(4, 20) {
+        vals.push(c.rnd(1));
+    }
+    for (vi, x) in vals.into_iter().enumerate() {
+        let a = bl(&x);
+        for &s in &ks {
+            if c.done() {
+                return;
+            }
+            let ok = s < 64;
+            let pan = panic_wanted(vi, s, 64);
+            let (l, r) = if ok { ((&x << s as usize) & &m, &x >> s as usize) } else { (BigUint::zero(), BigUint::zero()) };
+            // documented: panics if `shift` overflows Limb::BITS
+            in_range_or_panic!(c, ok, pan, call(|| a.shl(s)).map(lb), l.clone(); x, s);
+            in_range_or_panic!(c, ok, pan, call(|| a.shr(s)).map(lb), r.clone(); x, s);
+            in_range_or_panic!(c, ok, pan, call(|| a << s).map(lb), l.clone(); x, s);
+            in_range_or_panic!(c, ok, pan, call(|| a >> s).map(lb), r.clone(); x, s);
+            in_range_or_panic!(c, ok, pan, call(|| &a << s).map(lb), l.clone(); x, s);
+            in_range_or_panic!(c, ok, pan, call(|| &a >> s).map(lb), r.clone(); x, s);
+            in_range_or_panic!(c, ok, pan, call(|| { let mut t = a; t <<= s; t }).map(lb), l.clone(); x, s);
+            in_range_or_panic!(c, ok, pan, call(|| { let mut t = a; t >>= s; t }).map(lb), r.clone(); x, s);
+            let su = s as usize;
+            in_range_or_panic!(c, ok, pan, call(|| a << su).map(lb), l.clone(); x, s);
+            in_range_or_panic!(c, ok, pan, call(|| a >> su).map(lb), r.clone(); x, s);
+            in_range_or_panic!(c, ok, pan, call(|| { let mut t = a; t <<= su; t }).map(lb), l.clone(); x, s);
+            in_range_or_panic!(c, ok, pan, call(|| { let mut t = a; t >>= su; t }).map(lb), r.clone(); x, s);
+            if s <= i32::MAX as u32 {
+                let si = s as i32;
+                in_range_or_panic!(c, ok, pan, call(|| a << si).map(lb), l.clone(); x, s);
+                in_range_or_panic!(c, ok, pan, call(|| a >> si).map(lb), r.clone(); x, s);
+                in_range_or_panic!(c, ok, pan, call(|| { let mut t = a; t <<= si; t }).map(lb), l.clone(); x, s);
+                in_range_or_panic!(c, ok, pan, call(|| { let mut t = a; t >>= si; t }).map(lb), r.clone(); x, s);
+            }
+            // num_traits::WrappingShl / WrappingShr: documented as shifting by `s` with the high
+            // bits of `s` masked off (the primitive-integer meaning)
+            let sm = (s % 64) as usize;
+            check!(c, call(|| WrappingShl::wrapping_shl(&a, s)).map(lb), (&x << sm) & &m; x, s);
+            check!(c, call(|| WrappingShr::wrapping_shr(&a, s)).map(lb), &x >> sm; x, s);
+        }
+    }
+}
+
+// ---------------------------------------------------------------- bit queries
+
+fn tz(x: &BigUint, bits: u32) -> u32 {
+    x.trailing_zeros().map(|z| z as u32).unwrap_or(bits)
+}
+
+/// trailing ones of x = trailing zeros of x + 1 (MAX + 1 = 2^bits gives `bits`)
+fn to(x: &BigUint) -> u32 {
+    (x + 1u32).trailing_zeros().unwrap() as u32
+}
+
+fn uint_bit_counts<const L: usize>(c: &mut Ctx) {
+    let bits = 64 * L as u32;
+    for x in bit_values(c, L) {
+        if c.done() {
+            return;
+        }
+        let a = bu::<L>(&x);
+        let n = x.bits() as u32;
+        check!(c, call(|| a.bits()), n; x);
+        check!(c, call(|| a.bits_vartime()), n; x);
+        check!(c, call(|| BitOps::bits(&a)), n; x);
+        check!(c, call(|| BitOps::bits_vartime(&a)), n; x);
+        check!(c, call(|| a.leading_zeros()), bits - n; x);
+        check!(c, call(|| a.leading_zeros_vartime()), bits - n; x);
+        check!(c, call(|| BitOps::leading_zeros(&a)), bits - n; x);
+        check!(c, call(|| BitOps::leading_zeros_vartime(&a)), bits - n; x);
+        check!(c, call(|| a.trailing_zeros()), tz(&x, bits); x);
+        check!(c, call(|| a.trailing_zeros_vartime()), tz(&x, bits); x);
+        check!(c, call(|| BitOps::trailing_zeros(&a)), tz(&x, bits); x);
+        check!(c, call(|| BitOps::trailing_zeros_vartime(&a)), tz(&x, bits); x);
+        check!(c, call(|| a.trailing_ones()), to(&x); x);
+        check!(c, call(|| a.trailing_ones_vartime()), to(&x); x);
+        check!(c, call(|| BitOps::trailing_ones(&a)), to(&x); x);
+        check!(c, call(|| BitOps::trailing_ones_vartime(&a)), to(&x); x);
+    }
+    let a = Uint::<L>::ZERO;
+    let l = L;
+    check!(c, call(|| BitOps::bits_precision(&a)), bits; l);
+    check!(c, call(|| BitOps::bytes_precision(&a)), 8 * L; l);
+    check!(c, call(|| BitOps::log2_bits(&a)), 31 - bits.leading_zeros(); l);
+    check!(c, call(|| Uint::<L>::BITS), bits; l);
+}
+
+/// Values for the "every index" loops.
+fn index_values(c: &mut Ctx, l: usize, n_idx: usize) -> Vec<BigUint> {
+    let bits = 64 * l as u32;
+    let max = mask(bits);
+    let mut v = vec![BigUint::zero(), max.clone(), BigUint::one(), pow2(bits - 1), &max / 3u32, (&max / 3u32) << 1];
+    for i in boundaries(l) {
+        v.push(pow2(64 * i as u32) - 1u32);
+        v.push(pow2(64 * i as u32 - 1) | pow2(64 * i as u32));
+    }
+    let n = (c.cap / n_idx).clamp(6, 32);
+    v.extend(c.edges(l, n));
+    for _ in 0..(c.iters / 100).clamp(4, 20) {
+        v.push(c.rnd(l));
+    }
+    v
+}
+
+fn indices(bits: u32) -> Vec<u32> {
+    let mut v: Vec<u32> = (0..=bits + 65).collect();
+    v.extend([2 * bits, 2 * bits + 63, 1 << 16, 1 << 31, (1 << 31) + 1, u32::MAX - 64, u32::MAX - 63, u32::MAX - 1, u32::MAX]);
+    v
+}
+
+fn uint_bit_test<const L: usize>(c: &mut Ctx) {
+    let bits = 64 * L as u32;
+    let idx = indices(bits);
+    for x in index_values(c, L, idx.len()) {
+        let a = bu::<L>(&x);
+        for &i in &idx {
+            if c.done() {
+                return;
+            }
+            // documented: the falsy value for indices out of range
+            let e = i < bits && x.bit(i as u64);
+            check!(c, call(|| ccb(a.bit(i))), e; x, i);
+            check!(c, call(|| a.bit_vartime(i)), e; x, i);
+            check!(c, call(|| cb(BitOps::bit(&a, i))), e; x, i);
+            check!(c, call(|| BitOps::bit_vartime(&a, i)), e; x, i);
+        }
+    }
+}
+
+fn uint_set_bit<const L: usize>(c: &mut Ctx) {
+    let bits = 64 * L as u32;
+    for x in index_values(c, L, 2 * bits as usize) {
+        let a = bu::<L>(&x);
+        for i in 0..bits {
+            for b in [false, true] {
+                if c.done() {
+                    return;
+                }
+                let mut e = x.clone();
+                e.set_bit(i as u64, b);
+                check!(c, call(|| { let mut t = a; BitOps::set_bit(&mut t, i, Choice::from(b as u8)); t }).map(|v| ub(&v)), e.clone(); x, i, b);
+                check!(c, call(|| { let mut t = a; BitOps::set_bit_vartime(&mut t, i, b); t }).map(|v| ub(&v)), e; x, i, b);
+            }
+        }
+    }
+}
+
+fn boxed_bits(c: &mut Ctx) {
+    for nl in [1usize, 2, 3, 4, 5] {
+        let bits = 64 * nl as u32;
+        for x in c.scaled(5, |c| bit_values(c, nl)) {
+            if c.done() {
+                return;
+            }
+            let a = bx(&x, nl);
+            let n = x.bits() as u32;
+            check!(c, call(|| a.bits()), n; x, nl);
+            check!(c, call(|| a.bits_vartime()), n; x, nl);
+            check!(c, call(|| BitOps::bits(&a)), n; x, nl);
+            check!(c, call(|| BitOps::bits_vartime(&a)), n; x, nl);
+            check!(c, call(|| a.leading_zeros()), bits - n; x, nl);
+            check!(c, call(|| BitOps::leading_zeros(&a)), bits - n; x, nl);
+            check!(c, call(|| BitOps::leading_zeros_vartime(&a)), bits - n; x, nl);
+            check!(c, call(|| a.trailing_zeros()), tz(&x, bits); x, nl);
+            check!(c, call(|| a.trailing_zeros_vartime()), tz(&x, bits); x, nl);
+            check!(c, call(|| BitOps::trailing_zeros(&a)), tz(&x, bits); x, nl);
+            check!(c, call(|| BitOps::trailing_zeros_vartime(&a)), tz(&x, bits); x, nl);
+            check!(c, call(|| a.trailing_ones()), to(&x); x, nl);
+            check!(c, call(|| a.trailing_ones_vartime()), to(&x); x, nl);
+            check!(c, call(|| BitOps::trailing_ones(&a)), to(&x); x, nl);
+            check!(c, call(|| BitOps::trailing_ones_vartime(&a)), to(&x); x, nl);
+            check!(c, call(|| a.bits_precision()), bits; x, nl);
+            check!(c, call(|| BitOps::bits_precision(&a)), bits; x, nl);
+            check!(c, call(|| BitOps::bytes_precision(&a)), 8 * nl; x, nl);
+            check!(c, call(|| BitOps::log2_bits(&a)), 31 - bits.leading_zeros(); x, nl);
+        }
+        let idx = indices(bits);
+        for x in c.scaled(5, |c| index_values(c, nl, 3 * idx.len())) {
+            let a = bx(&x, nl);
+            for &i in &idx {
+                if c.done() {
+                    return;
+                }
+                let e = i < bits && x.bit(i as u64);
+                check!(c, call(|| cb(a.bit(i))), e; x, nl, i);
+                check!(c, call(|| a.bit_vartime(i)), e; x, nl, i);
+                check!(c, call(|| cb(BitOps::bit(&a, i))), e; x, nl, i);
+                check!(c, call(|| BitOps::bit_vartime(&a, i)), e; x, nl, i);
+                if i < bits {
+                    for b in [false, true] {
+                        let mut e = x.clone();
+                        e.set_bit(i as u64, b);
+                        check!(c, call(|| { let mut t = a.clone(); BitOps::set_bit(&mut t, i, Choice::from(b as u8)); t }).map(|v| xs(&v)), (e.clone(), nl); x, nl, i, b);
+                        check!(c, call(|| { let mut t = a.clone(); BitOps::set_bit_vartime(&mut t, i, b); t }).map(|v| xs(&v)), (e, nl); x, nl, i, b);
+                    }
+                }
+            }
+        }
+    }
+}
+
+fn limb_bits(c: &mut Ctx) {
+    for x in bit_values(c, 1) {
+        if c.done() {
+            return;
+        }
+        let a = bl(&x);
+        let n = x.bits() as u32;
+        check!(c, call(|| a.bits()), n; x);
+        check!(c, call(|| a.leading_zeros()), 64 - n; x);
+        check!(c, call(|| a.trailing_zeros()), tz(&x, 64); x);
+        check!(c, call(|| a.trailing_ones()), to(&x); x);
+    }
+}
+
+// ---------------------------------------------------------------- bitwise operators
+
+fn uint_bitwise<const L: usize>(c: &mut Ctx) {
+    let m = mask(64 * L as u32);
+    for (x, y) in c.inputs2(L, L) {
+        if c.done() {
+            return;
+        }
+        let (a, b) = (bu::<L>(&x), bu::<L>(&y));
+        let (and, or, xor, not) = (&x & &y, &x | &y, &x ^ &y, &m ^ &x);
+        let ou = |o: Option<Uint<L>>| o.map(|v| ub(&v));
+        check!(c, call(|| a.bitand(&b)).map(|v| ub(&v)), and.clone(); x, y);
+        check!(c, call(|| a.wrapping_and(&b)).map(|v| ub(&v)), and.clone(); x, y);
+        check!(c, call(|| opt(a.checked_and(&b))).map(ou), Some(and.clone()); x, y);
+        check!(c, call(|| a & b).map(|v| ub(&v)), and.clone(); x, y);
+        check!(c, call(|| a & &b).map(|v| ub(&v)), and.clone(); x, y);
+        check!(c, call(|| &a & b).map(|v| ub(&v)), and.clone(); x, y);
+        check!(c, call(|| &a & &b).map(|v| ub(&v)), and.clone(); x, y);
+        check!(c, call(|| { let mut t = a; t &= b; t }).map(|v| ub(&v)), and.clone(); x, y);
+        check!(c, call(|| { let mut t = a; t &= &b; t }).map(|v| ub(&v)), and.clone(); x, y);
+        check!(c, call(|| Wrapping(a) & Wrapping(b)).map(|v| ub(&v.0)), and.clone(); x, y);
+        check!(c, call(|| &Wrapping(a) & &Wrapping(b)).map(|v| ub(&v.0)), and.clone(); x, y);
+        check!(c, call(|| { let mut t = Wrapping(a); t &= Wrapping(b); t }).map(|v| ub(&v.0)), and.clone(); x, y);
+        check!(c, call(|| a.bitor(&b)).map(|v| ub(&v)), or.clone(); x, y);
+        check!(c, call(|| a.wrapping_or(&b)).map(|v| ub(&v)), or.clone(); x, y);
+        check!(c, call(|| opt(a.checked_or(&b))).map(ou), Some(or.clone()); x, y);
+        check!(c, call(|| a | b).map(|v| ub(&v)), or.clone(); x, y);
+        check!(c, call(|| a | &b).map(|v| ub(&v)), or.clone(); x, y);
+        check!(c, call(|| &a | b).map(|v| ub(&v)), or.clone(); x, y);
+        check!(c, call(|| &a | &b).map(|v| ub(&v)), or.clone(); x, y);
+        check!(c, call(|| { let mut t = a; t |= b; t }).map(|v| ub(&v)), or.clone(); x, y);
+        check!(c, call(|| { let mut t = a; t |= &b; t }).map(|v| ub(&v)), or.clone(); x, y);
+        check!(c, call(|| Wrapping(a) | Wrapping(b)).map(|v| ub(&v.0)), or.clone(); x, y);
+        check!(c, call(|| &Wrapping(a) | &Wrapping(b)).map(|v| ub(&v.0)), or.clone(); x, y);
+        check!(c, call(|| { let mut t = Wrapping(a); t |= Wrapping(b); t }).map(|v| ub(&v.0)), or.clone(); x, y);
+        check!(c, call(|| a.bitxor(&b)).map(|v| ub(&v)), xor.clone(); x, y);
+        check!(c, call(|| a.wrapping_xor(&b)).map(|v| ub(&v)), xor.clone(); x, y);
+        check!(c, call(|| opt(a.checked_xor(&b))).map(ou), Some(xor.clone()); x, y);
+        check!(c, call(|| a ^ b).map(|v| ub(&v)), xor.clone(); x, y);
+        check!(c, call(|| a ^ &b).map(|v| ub(&v)), xor.clone(); x, y);
+        check!(c, call(|| &a ^ b).map(|v| ub(&v)), xor.clone(); x, y);
+        check!(c, call(|| &a ^ &b).map(|v| ub(&v)), xor.clone(); x, y);
+        check!(c, call(|| { let mut t = a; t ^= b; t }).map(|v| ub(&v)), xor.clone(); x, y);
+        check!(c, call(|| { let mut t = a; t ^= &b; t }).map(|v| ub(&v)), xor.clone(); x, y);
+        check!(c, call(|| Wrapping(a) ^ Wrapping(b)).map(|v| ub(&v.0)), xor.clone(); x, y);
+        check!(c, call(|| &Wrapping(a) ^ &Wrapping(b)).map(|v| ub(&v.0)), xor.clone(); x, y);
+        check!(c, call(|| { let mut t = Wrapping(a); t ^= Wrapping(b); t }).map(|v| ub(&v.0)), xor.clone(); x, y);
+        check!(c, call(|| a.not()).map(|v| ub(&v)), not.clone(); x);
+        check!(c, call(|| !a).map(|v| ub(&v)), not.clone(); x);
+        check!(c, call(|| !Wrapping(a)).map(|v| ub(&v.0)), not.clone(); x);
+        // AND with one limb applied to every limb
+        let w = big_to_words(&y, 1)[0];
+        let rep = words_to_big(&vec![w; L]);
+        check!(c, call(|| a.bitand_limb(Limb(w))).map(|v| ub(&v)), &x & &rep; x, w);
+    }
+}
+
+/// Int bitwise operators act on the two's complement words.
+fn int_bitwise<const L: usize>(c: &mut Ctx) {
+    let m = mask(64 * L as u32);
+    let iw = |v: &Int<L>| words_to_big(v.as_words());
+    for (x, y) in c.inputs2(L, L) {
+        if c.done() {
+            return;
+        }
+        let (a, b) = (Int::<L>::from_words(bu::<L>(&x).to_words()), Int::<L>::from_words(bu::<L>(&y).to_words()));
+        let (and, or, xor, not) = (&x & &y, &x | &y, &x ^ &y, &m ^ &x);
+        let oi = |o: Option<Int<L>>| o.map(|v| words_to_big(v.as_words()));
+        check!(c, call(|| a.bitand(&b)).map(|v| iw(&v)), and.clone(); x, y);
+        check!(c, call(|| a.wrapping_and(&b)).map(|v| iw(&v)), and.clone(); x, y);
+        check!(c, call(|| copt(a.checked_and(&b))).map(oi), Some(and.clone()); x, y);
+        check!(c, call(|| a & b).map(|v| iw(&v)), and.clone(); x, y);
+        check!(c, call(|| a & &b).map(|v| iw(&v)), and.clone(); x, y);
+        check!(c, call(|| &a & b).map(|v| iw(&v)), and.clone(); x, y);
+        check!(c, call(|| &a & &b).map(|v| iw(&v)), and.clone(); x, y);
+        check!(c, call(|| { let mut t = a; t &= b; t }).map(|v| iw(&v)), and.clone(); x, y);
+        check!(c, call(|| { let mut t = a; t &= &b; t }).map(|v| iw(&v)), and.clone(); x, y);
+        check!(c, call(|| Wrapping(a) & Wrapping(b)).map(|v| iw(&v.0)), and.clone(); x, y);
+        check!(c, call(|| a.bitor(&b)).map(|v| iw(&v)), or.clone(); x, y);
+        check!(c, call(|| a.wrapping_or(&b)).map(|v| iw(&v)), or.clone(); x, y);
+        check!(c, call(|| copt(a.checked_or(&b))).map(oi), Some(or.clone()); x, y);
+        check!(c, call(|| a | b).map(|v| iw(&v)), or.clone(); x, y);
+        check!(c, call(|| a | &b).map(|v| iw(&v)), or.clone(); x, y);
+        check!(c, call(|| &a | b).map(|v| iw(&v)), or.clone(); x, y);
+        check!(c, call(|| &a | &b).map(|v| iw(&v)), or.clone(); x, y);
+        check!(c, call(|| { let mut t = a; t |= b; t }).map(|v| iw(&v)), or.clone(); x, y);
+        check!(c, call(|| { let mut t = a; t |= &b; t }).map(|v| iw(&v)), or.clone(); x, y);
+        check!(c, call(|| Wrapping(a) | Wrapping(b)).map(|v| iw(&v.0)), or.clone(); x, y);
+        check!(c, call(|| a.bitxor(&b)).map(|v| iw(&v)), xor.clone(); x, y);
+        check!(c, call(|| a.wrapping_xor(&b)).map(|v| iw(&v)), xor.clone(); x, y);
+        check!(c, call(|| copt(a.checked_xor(&b))).map(oi), Some(xor.clone()); x, y);
+        check!(c, call(|| a ^ b).map(|v| iw(&v)), xor.clone(); x, y);
+        check!(c, call(|| a ^ &b).map(|v| iw(&v)), xor.clone(); x, y);
+        check!(c, call(|| &a ^ b).map(|v| iw(&v)), xor.clone(); x, y);
+        check!(c, call(|| &a ^ &b).map(|v| iw(&v)), xor.clone(); x, y);
+        check!(c, call(|| { let mut t = a; t ^= b; t }).map(|v| iw(&v)), xor.clone(); x, y);
+        check!(c, call(|| { let mut t = a; t ^= &b; t }).map(|v| iw(&v)), xor.clone(); x, y);
+        check!(c, call(|| Wrapping(a) ^ Wrapping(b)).map(|v| iw(&v.0)), xor.clone(); x, y);
+        check!(c, call(|| a.not()).map(|v| iw(&v)), not.clone(); x);
+        check!(c, call(|| !a).map(|v| iw(&v)), not.clone(); x);
+        check!(c, call(|| !Wrapping(a)).map(|v| iw(&v.0)), not.clone(); x);
+        let w = big_to_words(&y, 1)[0];
+        let rep = words_to_big(&vec![w; L]);
+        check!(c, call(|| a.bitand_limb(Limb(w))).map(|v| iw(&v)), &x & &rep; x, w);
+    }
+}
+
+/// Assigning forms with a wider right-hand side: the precision of the result is not documented
+/// (`&=` widens, `|=` / `^=` keep the precision of `self`); the value must be the exact result
+/// truncated to whatever precision comes back, which must be that of `self` or the wider one.
+macro_rules! assign_form {
+    ($c:ident, $e:expr, $full:expr, $la:expr; $($n:ident),*) => {{
+        let got = call(|| $e).map(|v| xs(&v));
+        let exp = match &got {
+            Ok((_, n)) if *n == $la => (&$full.0 & mask(64 * $la as u32), $la),
+            _ => $full.clone(),
+        };
+        check!($c, got, exp; $($n),*);
+    }};
+}
+
+fn boxed_bitwise(c: &mut Ctx) {
+    // equal and mixed precisions: the shorter operand is zero-extended, the result has the larger precision
+    let shapes = [(1usize, 1usize), (2, 2), (3, 3), (4, 4), (5, 5), (1, 2), (2, 1), (1, 4), (4, 1), (3, 4), (4, 3), (2, 5)];
+    for (la, lb_) in shapes {
+        let nl = la.max(lb_);
+        for (x, y) in c.scaled(shapes.len(), |c| c.inputs2(la, lb_)) {
+            if c.done() {
+                return;
+            }
+            let (a, b) = (bx(&x, la), bx(&y, lb_));
+            let (and, or, xor) = ((&x & &y, nl), (&x | &y, nl), (&x ^ &y, nl));
+            let ox = |o: Option<BoxedUint>| o.map(|v| xs(&v));
+            check!(c, call(|| a.bitand(&b)).map(|v| xs(&v)), and.clone(); x, y, la, lb_);
+            check!(c, call(|| a.wrapping_and(&b)).map(|v| xs(&v)), and.clone(); x, y, la, lb_);
+            check!(c, call(|| opt(a.checked_and(&b))).map(ox), Some(and.clone()); x, y, la, lb_);
+            check!(c, call(|| &a & &b).map(|v| xs(&v)), and.clone(); x, y, la, lb_);
+            check!(c, call(|| a.clone() & &b).map(|v| xs(&v)), and.clone(); x, y, la, lb_);
+            check!(c, call(|| &a & b.clone()).map(|v| xs(&v)), and.clone(); x, y, la, lb_);
+            check!(c, call(|| a.clone() & b.clone()).map(|v| xs(&v)), and.clone(); x, y, la, lb_);
+            assign_form!(c, { let mut t = a.clone(); t &= &b; t }, and, la; x, y, la, lb_);
+            assign_form!(c, { let mut t = a.clone(); t &= b.clone(); t }, and, la; x, y, la, lb_);
+            check!(c, call(|| Wrapping(a.clone()) & Wrapping(b.clone())).map(|v| xs(&v.0)), and.clone(); x, y, la, lb_);
+            check!(c, call(|| a.bitor(&b)).map(|v| xs(&v)), or.clone(); x, y, la, lb_);
+            check!(c, call(|| a.wrapping_or(&b)).map(|v| xs(&v)), or.clone(); x, y, la, lb_);
+            check!(c, call(|| opt(a.checked_or(&b))).map(ox), Some(or.clone()); x, y, la, lb_);
+            check!(c, call(|| &a | &b).map(|v| xs(&v)), or.clone(); x, y, la, lb_);
+            check!(c, call(|| a.clone() | &b).map(|v| xs(&v)), or.clone(); x, y, la, lb_);
+            check!(c, call(|| &a | b.clone()).map(|v| xs(&v)), or.clone(); x, y, la, lb_);
+            check!(c, call(|| a.clone() | b.clone()).map(|v| xs(&v)), or.clone(); x, y, la, lb_);
+            assign_form!(c, { let mut t = a.clone(); t |= &b; t }, or, la; x, y, la, lb_);
+            assign_form!(c, { let mut t = a.clone(); t |= b.clone(); t }, or, la; x, y, la, lb_);
+            check!(c, call(|| Wrapping(a.clone()) | Wrapping(b.clone())).map(|v| xs(&v.0)), or.clone(); x, y, la, lb_);
+            check!(c, call(|| a.bitxor(&b)).map(|v| xs(&v)), xor.clone(); x, y, la, lb_);
+            check!(c, call(|| a.wrapping_xor(&b)).map(|v| xs(&v)), xor.clone(); x, y, la, lb_);
+            check!(c, call(|| opt(a.checked_xor(&b))).map(ox), Some(xor.clone()); x, y, la, lb_);
+            check!(c, call(|| &a ^ &b).map(|v| xs(&v)), xor.clone(); x, y, la, lb_);
+            check!(c, call(|| a.clone() ^ &b).map(|v| xs(&v)), xor.clone(); x, y, la, lb_);
+            check!(c, call(|| &a ^ b.clone()).map(|v| xs(&v)), xor.clone(); x, y, la, lb_);
+            check!(c, call(|| a.clone() ^ b.clone()).map(|v| xs(&v)), xor.clone(); x, y, la, lb_);
+            assign_form!(c, { let mut t = a.clone(); t ^= &b; t }, xor, la; x, y, la, lb_);
+            assign_form!(c, { let mut t = a.clone(); t ^= b.clone(); t }, xor, la; x, y, la, lb_);
+            check!(c, call(|| Wrapping(a.clone()) ^ Wrapping(b.clone())).map(|v| xs(&v.0)), xor.clone(); x, y, la, lb_);
+            let not = (mask(64 * la as u32) ^ &x, la);
+            check!(c, call(|| a.not()).map(|v| xs(&v)), not.clone(); x, la);
+            check!(c, call(|| !a.clone()).map(|v| xs(&v)), not.clone(); x, la);
+            check!(c, call(|| !Wrapping(a.clone())).map(|v| xs(&v.0)), not.clone(); x, la);
+            let w = big_to_words(&y, 1)[0];
+            let rep = words_to_big(&vec![w; la]);
+            check!(c, call(|| a.bitand_limb(Limb(w))).map(|v| xs(&v)), (&x & &rep, la); x, w, la);
+        }
+    }
+}
+
+fn limb_bitwise(c: &mut Ctx) {
+    let m = mask(64);
+    for (x, y) in c.inputs2(1, 1) {
+        if c.done() {
+            return;
+        }
+        let (a, b) = (bl(&x), bl(&y));
+        check!(c, call(|| a.bitand(b)).map(lb), &x & &y; x, y);
+        check!(c, call(|| a & b).map(lb), &x & &y; x, y);
+        check!(c, call(|| { let mut t = a; t &= b; t }).map(lb), &x & &y; x, y);
+        check!(c, call(|| { let mut t = a; t &= &b; t }).map(lb), &x & &y; x, y);
+        check!(c, call(|| a.bitor(b)).map(lb), &x | &y; x, y);
+        check!(c, call(|| a | b).map(lb), &x | &y; x, y);
+        check!(c, call(|| { let mut t = a; t |= b; t }).map(lb), &x | &y; x, y);
+        check!(c, call(|| { let mut t = a; t |= &b; t }).map(lb), &x | &y; x, y);
+        check!(c, call(|| a.bitxor(b)).map(lb), &x ^ &y; x, y);
+        check!(c, call(|| a ^ b).map(lb), &x ^ &y; x, y);
+        check!(c, call(|| { let mut t = a; t ^= b; t }).map(lb), &x ^ &y; x, y);
+        check!(c, call(|| a.not()).map(lb), &m ^ &x; x);
+        check!(c, call(|| !a).map(lb), &m ^ &x; x);
+    }
+}
 
 pub fn cases() -> Vec<Case> {
-    Vec::new()
+    let mut v = Vec::new();
+    ucases!(v, "shl family (shl/_vartime/overflowing/wrapping/<< <<=/ShlVartime/WrappingShl) all shifts", uint_shl; 1, 2, 3, 4, 5, 6, 8, 16);
+    ucases!(v, "shr family (shr/_vartime/overflowing/wrapping/>> >>=/ShrVartime/WrappingShr) all shifts", uint_shr; 1, 2, 3, 4, 5, 6, 8, 16);
+    ucases!(v, "overflowing_shl_vartime_wide/overflowing_shr_vartime_wide all shifts", uint_wide; 1, 2, 3, 4, 5, 6, 16);
+    icases!(v, "shl family all shifts", int_shl; 1, 2, 3, 4, 5, 16);
+    icases!(v, "shr family (arithmetic, sign fill) all shifts", int_shr; 1, 2, 3, 4, 5, 16);
+    case!(v, "BoxedUint::shl family (1..=5 limbs) all shifts", boxed_shl);
+    case!(v, "BoxedUint::shr family (1..=5 limbs) all shifts", boxed_shr);
+    case!(v, "Limb::shl/shr/operators/WrappingShl/WrappingShr all shifts", limb_shifts);
+    ucases!(v, "bits/leading_zeros/trailing_zeros/trailing_ones (+_vartime, BitOps)", uint_bit_counts; 1, 2, 3, 4, 5, 6, 16);
+    ucases!(v, "bit/bit_vartime every index", uint_bit_test; 1, 2, 3, 4, 5, 6, 16);
+    ucases!(v, "BitOps::set_bit/set_bit_vartime every index", uint_set_bit; 1, 2, 3, 4, 5, 16);
+    case!(v, "BoxedUint bit queries / bit / set_bit (1..=5 limbs)", boxed_bits);
+    case!(v, "Limb::bits/leading_zeros/trailing_zeros/trailing_ones", limb_bits);
+    ucases!(v, "& | ^ ! (inherent, checked, wrapping, operators, assign, Wrapping, bitand_limb)", uint_bitwise; 1, 2, 3, 4, 5, 16);
+    icases!(v, "& | ^ ! (inherent, checked, wrapping, operators, assign, Wrapping, bitand_limb)", int_bitwise; 1, 2, 3, 4);
+    case!(v, "BoxedUint & | ^ ! (equal and mixed precisions)", boxed_bitwise);
+    case!(v, "Limb & | ^ !", limb_bitwise);
+    v
 }
